@@ -112,6 +112,26 @@ func unwrap(v interface{}) interface{} {
 // PrepareQuery checks that the given selectionSet matches the schema typ, and
 // parses the args in selectionSet
 func PrepareQuery(ctx context.Context, typ Type, selectionSet *SelectionSet) error {
+	return prepareQuery(ctx, typ, selectionSet, make(map[prepareKey]struct{}))
+}
+
+// prepareKey identifies one (type, selection set) pair. A fragment that is
+// spread many times is checked once per type it is used on, which keeps
+// PrepareQuery linear in the size of the query.
+type prepareKey struct {
+	typ          Type
+	selectionSet *SelectionSet
+}
+
+func prepareQuery(ctx context.Context, typ Type, selectionSet *SelectionSet, prepared map[prepareKey]struct{}) error {
+	if selectionSet != nil {
+		key := prepareKey{typ: typ, selectionSet: selectionSet}
+		if _, ok := prepared[key]; ok {
+			return nil
+		}
+		prepared[key] = struct{}{}
+	}
+
 	switch typ := typ.(type) {
 	case *Scalar:
 		if selectionSet != nil {
@@ -131,7 +151,7 @@ func PrepareQuery(ctx context.Context, typ Type, selectionSet *SelectionSet) err
 		for _, fragment := range selectionSet.Fragments {
 			if fragment.On == typ.Name {
 				// A fragment on the union itself applies to every member.
-				if err := PrepareQuery(ctx, typ, fragment.SelectionSet); err != nil {
+				if err := prepareQuery(ctx, typ, fragment.SelectionSet, prepared); err != nil {
 					return err
 				}
 				continue
@@ -140,7 +160,7 @@ func PrepareQuery(ctx context.Context, typ Type, selectionSet *SelectionSet) err
 				if fragment.On != typString {
 					continue
 				}
-				if err := PrepareQuery(ctx, graphqlTyp, fragment.SelectionSet); err != nil {
+				if err := prepareQuery(ctx, graphqlTyp, fragment.SelectionSet, prepared); err != nil {
 					return err
 				}
 			}
@@ -193,22 +213,22 @@ func PrepareQuery(ctx context.Context, typ Type, selectionSet *SelectionSet) err
 
 			selection.ParentType = typ.Name
 
-			if err := PrepareQuery(ctx, field.Type, selection.SelectionSet); err != nil {
+			if err := prepareQuery(ctx, field.Type, selection.SelectionSet, prepared); err != nil {
 				return err
 			}
 		}
 		for _, fragment := range selectionSet.Fragments {
-			if err := PrepareQuery(ctx, typ, fragment.SelectionSet); err != nil {
+			if err := prepareQuery(ctx, typ, fragment.SelectionSet, prepared); err != nil {
 				return err
 			}
 		}
 		return nil
 
 	case *List:
-		return PrepareQuery(ctx, typ.Type, selectionSet)
+		return prepareQuery(ctx, typ.Type, selectionSet, prepared)
 
 	case *NonNull:
-		return PrepareQuery(ctx, typ.Type, selectionSet)
+		return prepareQuery(ctx, typ.Type, selectionSet, prepared)
 
 	default:
 		panic("unknown type kind")
